@@ -744,6 +744,9 @@ func (e *Engine) applyContract(fr *frame, st *State, fn *types.Func, decl *ast.F
 				spec.DeclareNilPtr(rets[0].Ty.Name)
 				st.facts = append(st.facts, sx.App("=", sx.App("=", boxed, sx.Atom("AnyNull")), sx.App("isnilp_"+rets[0].Ty.Name, rets[0].T)))
 			}
+			if rets[0].Ty.K == spec.KBool { // asbool(cres(...)) names a boolean result
+				st.facts = append(st.facts, sx.App("=", e.uf("unbox_Bool", spec.Type{K: spec.KBool}, Val{TV: spec.TV{T: boxed, Ty: spec.Type{K: spec.KAny}}}).T, rets[0].T))
+			}
 			if rets[0].Ty.K == spec.KInt { // unbox(box(x)) == x for this value
 				st.facts = append(st.facts, sx.App("=", e.uf("unbox_Int", spec.Type{K: spec.KInt}, Val{TV: spec.TV{T: boxed, Ty: spec.Type{K: spec.KAny}}}).T, rets[0].T))
 			}
